@@ -365,6 +365,10 @@ val find_skip : z -> rstep list -> nat -> nat option
 
 val exec_script : z -> rstep list -> exec_result
 
+val produced : rstep list -> nat option -> rstep list
+
+val exec_script2 : z -> rstep list -> nat option -> exec_result
+
 val run_docs : (tcase list * exec_result) list -> res option list list * bool
 
 val run_exit : (tcase list * exec_result) list -> z
